@@ -20,7 +20,7 @@ func init() { register("C11", runC11) }
 // integer parameters only through comparisons, over one weak ordering of the
 // parameters (given as ranks). It returns (result, decided).
 func orderEval(fn *ssa.Function, rank map[*ssa.Parameter]int) (bool, bool) {
-	vals := map[ssa.Value]int{} // 0/1 for bools
+	vals := map[ssa.Value]int{}                   // 0/1 for bools
 	var evalV func(v ssa.Value) (int, bool, bool) // (value, isRank, ok)
 	evalV = func(v ssa.Value) (int, bool, bool) {
 		if p, ok := v.(*ssa.Parameter); ok {
@@ -680,7 +680,7 @@ func runC11(c *core.Ctx) core.Meta {
 	// ---------------- R11.4 SEND-DISCIPLINE + FIELDS ----------------
 	RunProto(c, &ProtoCfg{
 		AllEffectsAfterSend: true,
-		RuleBase: "R11.4.cp", Pkg: cpPkg, FloorSends: 4,
+		RuleBase:            "R11.4.cp", Pkg: cpPkg, FloorSends: 4,
 		Effects: []Effect{
 			RetrieveEffect,
 			FieldWriteEffect("h2d-map-write", "CommandProcessor.bottomMemCopyH2DReqIDToTopReqMap"),
@@ -774,8 +774,8 @@ func runC11(c *core.Ctx) core.Meta {
 	// driver side send
 	RunProto(c, &ProtoCfg{
 		AllEffectsAfterSend: true,
-		RuleBase: "R11.4.driver", Pkg: driverPkg, FloorSends: 1,
-		Effects: []Effect{RetrieveEffect, FieldWriteEffect("requestsToSend-write", "Driver.requestsToSend")},
+		RuleBase:            "R11.4.driver", Pkg: driverPkg, FloorSends: 1,
+		Effects:   []Effect{RetrieveEffect, FieldWriteEffect("requestsToSend-write", "Driver.requestsToSend")},
 		OnlyFuncs: func(name string) bool { return name == "Driver.sendToGPUs" },
 	})
 
@@ -799,7 +799,9 @@ func checkFlushBeforeCopy(c *core.Ctx, pd, pc *PkgInfo, prov *core.Prov, rule st
 		c.MarkAnalysed(fn)
 		g := core.BuildGraph(fn, 0, nil)
 		isNeed := func(n *core.Node) bool { return callsFunc(n.Instr, pd.Pkg, "defaultMemoryCopyMiddleware.needFlushing") }
-		isFlush := func(n *core.Node) bool { return callsFunc(n.Instr, pd.Pkg, "defaultMemoryCopyMiddleware.sendFlushRequest") }
+		isFlush := func(n *core.Node) bool {
+			return callsFunc(n.Instr, pd.Pkg, "defaultMemoryCopyMiddleware.sendFlushRequest")
+		}
 		isCopyReq := func(n *core.Node) bool {
 			return core.IsCall(n.Instr, core.ModPath+"/amd/protocol.NewMemCopyH2DReq", core.ModPath+"/amd/protocol.NewMemCopyD2HReq")
 		}
